@@ -31,6 +31,10 @@ CHECKS = {
          "Each program (33 templates printing/enumerating/serialising maps, closures, errors, schema/json/gensym/time output, plus generated core programs) is run once, then in 4 concurrently running fresh runtimes after unrelated activity in the same process, under the race detector; a fixed sub-list is re-run in 4 separate processes (GOMAXPROCS 1/3/8/16, GOGC 20/100/400/off, 0-19 rounds of prior activity); value rendering, Stderr, error message and rendering with location, step count and probe trace must be byte-identical; any race report is a violation.",
          "time:utc-now / time-elapsed / sleep and file loading are excluded by construction; map-order leaks are probabilistic per comparison (>=8 keys, 8 comparisons per program).",
          "DESIGN.md 4/C10"),
+ "C11": ("exploration", "history + heap-model runtime monitor: every live value re-inspected (structural snapshot) after every container operation",
+         "Histories of 12-70 operations over a heap of named globals in one real runtime: constructors, views (slice/cdr/rest, views of views), every listed non-mutating operation, the five mutators, zero-length appends, appends to views and to append results, containers stored in containers, quoted literals; after each step every live value is compared with a heap model (backing, offset, length) that encodes the documented discipline.",
+         "Whether append! moves a vector that has outstanding views is unspecified (capacity is an implementation detail): values whose sharing would depend on it are skipped, not judged; key spelling of maps is compared by name.",
+         "DESIGN.md 4/C11"),
  "C13": ("exploration", "reference-model runtime monitor: libjson driven through the lisp builtins, judged by an independent byte-level RFC 8259 recognizer/decoder (math/big numbers); Python json as an offline second oracle over the recorded log in the thorough tier",
          "Generated JSON-representable values are dumped (several forms, permuted insertion order: byte-identical, keys sorted, valid per the independent recognizer, decoded back to the same data, load(dump v) equal? v); generated RFC 8259 texts and ~230 named near-miss mutations are loaded under all four :string-numbers/:exact-integers combinations (keywords and use-* defaults) and must agree with the independent decoder on acceptance, structure, literal text, int/float typing, json:integer-range-error and json:syntax-error.",
          "Trusts harness/c13x (own recognizer, decoder, UTF-8 validator, big-number classification); interpretations of DESIGN.md 4/C13 and notes/NOTES-C13.md (list==vector, invalid UTF-8, duplicate names, float overflow literals, canonical-float-text 'unsure' band) are not judged.",
